@@ -106,7 +106,7 @@ func (in *Interp) zero(t types.Type) Value {
 		if u.Kind() == types.UnsafePointer {
 			return (*Value)(nil)
 		}
-		if u.Kind() == types.UntypedNil {
+		if u.Kind() == types.UntypedNil || u.Kind() == types.Invalid {
 			return nil
 		}
 		if w, _, ok := intInfo(u); ok {
@@ -236,6 +236,11 @@ func describe(v Value) string {
 			return "nil"
 		}
 		return fmt.Sprintf("&%s", describe(*x))
+	case *Lazy:
+		if x.forced {
+			return describe(x.val)
+		}
+		return "<lazy " + x.name + ">"
 	case Struct:
 		s := "{"
 		for i, f := range x {
